@@ -1,6 +1,7 @@
 //! Correspondence / oracle harness for arc-swap (real crate, `--cfg arc_swap_verif`).
 mod conc;
 mod kinds;
+mod serde_mode;
 mod prog;
 mod rng;
 mod sched;
@@ -214,6 +215,13 @@ fn main() {
             );
             // exit status is decided by the caller from the file; hung executions leave threads
             std::process::exit(0);
+        }
+        "serde" => {
+            let seed: u64 = get("--seed").and_then(|s| s.parse().ok()).unwrap_or(1);
+            let count: usize = get("--count").and_then(|s| s.parse().ok()).unwrap_or(200);
+            for l in serde_mode::run(seed, count) {
+                println!("{}", l);
+            }
         }
         "kinds" => {
             for l in kinds::run() {
